@@ -164,7 +164,8 @@ theorem core_try_stop_correct (cf : Core.Config) (args : List Int) (pr : Core.CP
     ∃ mEnd, Exec (Sphinx.sphinx (Core.coreProg cf pr)) (Core.coreInit cf args pr) (tr ++ Core.terminalEvs res)
         ⟨Sphinx.tntPc (Core.progLen cf.checked pr), mEnd⟩ ∧
       ¬ Halts (Sphinx.sphinx (Core.coreProg cf pr)) (Core.coreInit cf args pr) :=
-  Core.core_correct cf args pr hw hB (by simp only [Core.regsLen, _hstop, if_true]; exact hSE) hwf hlen fuel env' tr res hex hck hpkF hroom
+  Core.core_correct cf args pr hw hB (by have : Core.needsVD pr = true := by simp [Core.needsVD, _hstop]
+                                         simp only [Core.regsLen, this, if_true]; exact hSE) hwf hlen fuel env' tr res hex hck hpkF hroom
 
 /-- non-vacuity: the body prints `A`, sets `x := 9`, and is defeated when `x > 5`: the committed output
 is `A` (kept), `S` (handler), `N` (the assignment is kept: `x` is 9, not 5); with `x := 3` instead the
@@ -219,5 +220,25 @@ example :
     (Core.srcRun ⟨2, 100, true⟩ 12 [] (pr 5)).map (fun r => (r.2.1, r.2.2)) =
       some ([Ev.out 65, Ev.out 99, Ev.out 66, Ev.out 89], .returned) := by
   refine ⟨by decide, by decide +kernel, by decide +kernel⟩
+
+/-- … and from the body of a `try/undo` (`try { !chk(x); … } undo { … }`, the commonest shape in real programs): the
+defeat function still goes through the word `defeat`, which holds the address of a `halt` there; the machine
+halts in the body's world exactly when the source body is defeated, and the handler runs from the state before
+the `try`.  (`core_try_undo_correct` covers it; the case is `Core.call_ok` in the situation `stop dA halt`.) -/
+example :
+    let pr (v : Int) : Core.CProg :=
+      { params := [],
+        funs := [{ name := "!chk", params := ["x"], dfn := true,
+                   body := .defeatIf (.cmp .gt (.var "x") (.lit 5)) (.putc 99 .ret) }],
+        body := .decl "x" (.lit 5)
+          (.tryUndo (.putc 65 (.assign "x" (.lit v) (.callS "!chk" [.var "x"] (.putc 66 .nil))))
+                    (.putc 85 .nil)
+            (.ifb (.cmp .eq (.var "x") (.lit 5)) (.putc 89 .nil) (.putc 78 .nil) .ret)) }
+    Core.wfProg (pr 9) = true ∧ Core.needsVD (pr 9) = true ∧
+    (Core.srcRun ⟨2, 100, true⟩ 12 [] (pr 9)).map (fun r => (r.2.1, r.2.2)) =
+      some ([Ev.out 85, Ev.out 89], .returned) ∧
+    (Core.srcRun ⟨2, 100, true⟩ 12 [] (pr 5)).map (fun r => (r.2.1, r.2.2)) =
+      some ([Ev.out 65, Ev.out 99, Ev.out 66, Ev.out 89], .returned) := by
+  refine ⟨by decide, by decide, by decide +kernel, by decide +kernel⟩
 
 end HidVerif.Props.C02
